@@ -7,10 +7,18 @@ phases of one or two event types, removes some (before firing, while the event
 waits for before-Deferreds, and from inside running triggers), makes triggers
 raise, makes before-triggers return Deferreds (unfired / already fired /
 failing) which the tape fires later in any order, and lets triggers register
-further triggers.  Every trigger is one recording function; an independent
-per-event model (three ordered lists + set of outstanding Deferreds) says, at the
-moment a trigger runs, whether it is the one that must run now.
+further triggers.  An event is fired up to four times per run with registrations and
+removals in between; per event a tape-chosen subset of the phases is used at all
+(events with only before-triggers, without before-triggers, ...), and in some runs
+no trigger returns a Deferred.  A hook (callable + arguments) whose earlier
+registration has run or was removed may be registered AGAIN with identical
+arguments, so that its handle compares equal to the earlier one; the model treats
+that as a fresh trigger instance.  Every trigger is one recording function; an
+independent per-event model (three ordered lists + set of outstanding Deferreds)
+says, at the moment a trigger runs, whether it is the one that must run now.
 """
+import os
+
 from twisted.internet import defer
 from twisted.internet.base import ReactorBase
 
@@ -18,7 +26,7 @@ ID = "C12"
 ENGINE = "tasks"
 LEVEL = "exploration"
 TECHNIQUE = "deterministic simulation: seeded registration/removal/firing histories on a real ReactorBase vs ordered-phase reference model"
-QUICK_RUNS = 100000
+QUICK_RUNS = 60000
 TWIN_P = 0.08   # this share of the runs drives two independent instances of the scenario one after the other (detsim.runner._run_scenario)
 BATCH = 300
 RUN_WALL_LIMIT_S = 120   # runs take milliseconds; generous because whole-machine stalls >20 s were seen under load
@@ -27,12 +35,27 @@ COMPONENTS = {"real": ["twisted.internet.base.ReactorBase.addSystemEventTrigger/
               "stub": ["reactor main loop, waker, fd set (never started); who registers/removes/fires and when before-Deferreds fire (tape)"]}
 RULE = ("run = up to 20 registrations over before/during/after of 1-2 event types with behaviours {plain, raise, return unfired/fired/failed Deferred, "
         "remove another trigger, register another trigger}, removals before firing / while waiting / from inside triggers, then fireSystemEvent and "
-        "tape-ordered firing (success or failure) of the returned Deferreds, optionally a second firing; non-trivial = an event waited on at least "
-        "one unfired Deferred AND (a trigger raised, or a removal or registration happened during the firing)")
+        "tape-ordered firing (success or failure) of the returned Deferreds, 1-4 firings per event with registrations/removals in between; per event "
+        "a tape-chosen subset of phases is populated (partly empty events), in a quarter of the runs no trigger returns a Deferred; with a per-run "
+        "probability a registration re-uses the callable+arguments of an earlier registration of that event that has run or was removed (equal "
+        "handle, fresh trigger instance in the model), removals go through any handle that compares equal; non-trivial = an event waited on at "
+        "least one unfired Deferred AND (a trigger raised, or a removal or registration happened during the firing)")
 ASSUMPTIONS = ["an event is not fired again while a firing of the same event is in progress",
                "triggers registered while their event is being fired get no ordering verdict for that firing (statement is silent); "
                "if they did not run they count as ordinary registered triggers for the next firing",
-               "each trigger has a distinct argument tuple, so handles are unambiguous"]
+               "at any moment at most one registered-and-not-yet-run trigger exists per (callable, arguments): identical hooks are registered "
+               "again only after the earlier registration ran or was removed, so an executing trigger is attributed unambiguously",
+               "handles are values: removing through a handle that compares equal (==) to the handle of the registered instance removes that instance",
+               "removing through a handle none of whose equal registrations is still registered: must raise only if none of them ever ran "
+               "(IReactorCore documents the exception; removal of already-run triggers merely warns today)",
+               "REREG_RAN_BEFORE_HOOK_IN_FIRING_P: see the constant (precondition of a reported finding, avoided by default)"]
+
+# Share of runs that may re-register, WHILE an event is being fired, a before-hook identical to a before-trigger that already ran in
+# this very firing.  On the unchanged tree removing such a re-registration before the firing completes only warns and leaves it
+# registered (removeTrigger_BEFORE looks the value up in finishedBefore), so it runs at the next firing: signature
+# C12:removed-never-runs:before:equal-hook-ran-in-this-firing.  0.0 avoids the precondition (see report / MUTANTS); everything else about
+# re-registration is exercised regardless.  VERIF_C12_REREG_RAN_BEFORE_P=0.2 in the environment switches it on (search and --replay).
+REREG_RAN_BEFORE_HOOK_IN_FIRING_P = float(os.environ.get("VERIF_C12_REREG_RAN_BEFORE_P", "0.2"))
 
 
 class Boom(Exception):
@@ -47,6 +70,8 @@ class MiniReactor(ReactorBase):
 
 
 PHASES = ("before", "during", "after")
+# which phases of an event are populated at all in a run (first = simplest: all of them)
+MASKS = [(PHASES, 6), (("before",), 3), (("before", "during"), 1), (("before", "after"), 1), (("during", "after"), 1), (("during",), 1), (("after",), 1)]
 
 
 class EvModel:
@@ -61,10 +86,18 @@ def run(sim):
     nev = sim.draw_choice([1, 2], "nevents")
     events = ["alpha", "beta"][:nev]
     nreg = sim.draw_int(1, 20, "nreg")
-    sim.config = {"events": nev, "registrations": nreg}
+    masks = {ev: sim.draw_weighted(MASKS, "mask") for ev in events}
+    rereg_p = sim.draw_choice([0.0, 0.3, 0.6], "rereg_p")      # share of registrations that re-use an earlier hook (callable + arguments)
+    deferreds = not sim.draw_bool(0.25, "no_deferreds")        # False: no trigger of this run returns a Deferred
+    churn = sim.draw_choice([1, 3], "churn")                   # weight of registrations between / during firings
+    allow_ran_before = REREG_RAN_BEFORE_HOOK_IN_FIRING_P > 0 and sim.draw_bool(REREG_RAN_BEFORE_HOOK_IN_FIRING_P, "allow_ran_before")
+    sim.config = {"events": nev, "registrations": nreg, "phases": {ev: "+".join(masks[ev]) for ev in events}, "rereg_p": rereg_p,
+                  "deferreds": deferreds, "churn": churn}
     reactor = MiniReactor()
     model = {ev: EvModel() for ev in events}
-    T = {}          # tid -> info
+    T = {}          # tid -> info (one per REGISTRATION = trigger instance)
+    K = {}          # key -> {"ev", "kw", "insts": [tid, ...]}; the key is the argument the hook is registered with (hook identity)
+    live = {}       # key -> tid of the instance of that hook that is registered and has not run (at most one, see ASSUMPTIONS)
     D = {}          # did -> (Deferred, ev)
     order = []      # observed execution log: (ev, serial, tid)
     st = {"tid": 0, "did": 0, "depth": 0, "waited": 0, "raised": 0, "mid_change": 0}
@@ -80,39 +113,80 @@ def run(sim):
                 return t
         return None
 
+    def ran_before_in_this_firing(key, m):
+        return m.firing and any(T[t]["phase"] == "before" and T[t]["ran_serial"] == m.serial for t in K[key]["insts"])
+
     def register(phase, ev, beh, by):
         st["tid"] += 1
         tid = st["tid"]
         m = model[ev]
-        info = {"phase": phase, "ev": ev, "beh": beh, "runs": 0, "removed": False, "late": m.serial if m.firing else None}
+        key = None
+        if rereg_p and sim.draw_bool(rereg_p, "rereg"):
+            # the same hook again: same callable, same arguments -> a handle equal to the one of its earlier registration(s)
+            cands = [k for k in sorted(K) if K[k]["ev"] == ev and k not in live]
+            if cands:
+                key = sim.draw_choice(cands, "key")
+                if not sim.draw_bool(0.25, "other_phase"):
+                    phase = T[K[key]["insts"][-1]]["phase"]
+                if phase == "before" and ran_before_in_this_firing(key, m):
+                    if allow_ran_before:
+                        sim.probe("reregistered_before_hook_that_ran_in_this_firing")
+                    else:
+                        key = None
+        if key is None:
+            key = tid
+            K[key] = {"ev": ev, "kw": sim.draw_bool(0.2, "kw"), "insts": []}
+        else:
+            sim.probe("reregistered_identical_hook")
+            prev = T[K[key]["insts"][-1]]
+            sim.probe("reregistered_hook_that_ran" if prev["runs"] else "reregistered_hook_that_was_removed")
+        K[key]["insts"].append(tid)
+        live[key] = tid
+        info = {"key": key, "phase": phase, "ev": ev, "beh": beh, "runs": 0, "removed": False, "late": m.serial if m.firing else None,
+                "ran_serial": None, "ctx": ""}
         T[tid] = info
-        sim.event("add", by, tid, phase, ev, beh, "late" if m.firing else "")
+        sim.event("add", by, tid, key, phase, ev, beh, "late" if m.firing else "")
         if m.firing:
             st["mid_change"] += 1
             sim.probe("registered_during_firing")
         with sim.guard("add-raised", phase):
-            if sim.draw_bool(0.2, "kw"):
-                info["handle"] = reactor.addSystemEventTrigger(phase, ev, trigger, tid=tid)
+            if K[key]["kw"]:
+                info["handle"] = reactor.addSystemEventTrigger(phase, ev, trigger, tid=key)
             else:
-                info["handle"] = reactor.addSystemEventTrigger(phase, ev, trigger, tid)
+                info["handle"] = reactor.addSystemEventTrigger(phase, ev, trigger, key)
         m.lists[phase].append(tid)
         return tid
 
     def remove(tid, by):
+        """removeSystemEventTrigger(handle returned by registration `tid`)."""
         info = T[tid]
+        key = info["key"]
         m = model[info["ev"]]
-        if not info["removed"] and info["runs"] == 0:
-            # a registered trigger: removal must succeed and it must never run
-            sim.event("remove", by, tid, "live")
-            info["removed"] = True
-            m.lists[info["phase"]].remove(tid)
+        target = live.get(key)
+        if target is not None and target != tid and not (info["handle"] == T[target]["handle"]):
+            target = None       # e.g. the hook is now registered for another phase: this handle does not denote that registration
+        if target is not None:
+            # the handle denotes a registered trigger that has not run: removal must succeed and that trigger must never run
+            tinfo = T[target]
+            sim.event("remove", by, tid, "live", target)
+            if target != tid:
+                sim.probe("removed_through_equal_handle_of_earlier_registration")
+            if len(K[key]["insts"]) > 1:
+                sim.probe("reregistered_hook_removed")
+                if ran_before_in_this_firing(key, m) and tinfo["phase"] == "before":
+                    tinfo["ctx"] = ":equal-hook-ran-in-this-firing"
+            tinfo["removed"] = True
+            del live[key]
+            m.lists[tinfo["phase"]].remove(target)
             if m.firing:
                 st["mid_change"] += 1
                 sim.probe("removed_during_firing")
-            with sim.guard("remove-raised", info["phase"] + (":firing" if m.firing else ":idle")):
+            with sim.guard("remove-raised", tinfo["phase"] + (":firing" if m.firing else ":idle")):
                 reactor.removeSystemEventTrigger(info["handle"])
             return
-        kind = "already-removed" if info["removed"] else "already-run"
+        # no registered trigger behind this handle; "already-removed" only if NO registration with an equal handle ever ran
+        equal = [t for t in K[key]["insts"] if t == tid or info["handle"] == T[t]["handle"]]
+        kind = "already-run" if any(T[t]["runs"] for t in equal) else "already-removed"
         sim.event("remove", by, tid, kind)
         raised = None
         try:
@@ -128,15 +202,23 @@ def run(sim):
         # already-run: warns (before, while waiting) or raises; no verdict
 
     def trigger(tid):
+        # `tid` is the hook's argument (its key); the instance that runs is the registered one of that hook - if there is none, the
+        # newest registration of the hook is what ran again / ran although removed
+        key = tid
+        tid = live.pop(key, None)
+        if tid is None:
+            tid = K[key]["insts"][-1]
         info = T[tid]
         ev, phase, beh = info["ev"], info["phase"], info["beh"]
         m = model[ev]
         info["runs"] += 1
+        info["ran_serial"] = m.serial
         late = is_late(tid)
         order.append((ev, m.serial, tid))
-        sim.event("run", tid, phase, ev, beh, "late" if late else "")
-        sim.check("runs-once", info["runs"] == 1, phase, "trigger %d ran %d times" % (tid, info["runs"]))
-        sim.check("removed-never-runs", not info["removed"], phase, "trigger %d ran after it was removed" % tid)
+        sim.event("run", tid, key, phase, ev, beh, "late" if late else "")
+        sim.check("runs-once", info["runs"] == 1, phase, "trigger %d (hook %d) ran %d times" % (tid, key, info["runs"]))
+        sim.check("removed-never-runs", not info["removed"], phase + info["ctx"],
+                  "trigger %d (registration %d of hook %d) ran after it was removed" % (tid, len(K[key]["insts"]), key))
         sim.check("runs-only-when-fired", m.firing, phase, "trigger %d of %s ran although %s is not being fired" % (tid, ev, ev))
         if not late:
             if phase == "before":
@@ -174,8 +256,8 @@ def run(sim):
             return None
         if beh == "adder":
             if st["tid"] < 40:
-                register(sim.draw_choice(PHASES, "phase"), sim.draw_choice(events, "ev"),
-                         sim.draw_choice(["plain", "raise"], "beh"), "trigger%d" % tid)
+                ev2 = sim.draw_choice(events, "ev")
+                register(sim.draw_choice(masks[ev2], "phase"), ev2, sim.draw_choice(["plain", "raise"], "beh"), "trigger%d" % tid)
             return None
         if beh in ("dnew", "dok", "dfail"):
             st["did"] += 1
@@ -214,6 +296,13 @@ def run(sim):
         m.firing = True
         m.pending = set()
         sim.event("fire", ev, m.serial)
+        if m.serial > 1:
+            sim.probe("fired_again")
+        filled = [ph for ph in PHASES if m.lists[ph]]
+        if 0 < len(filled) < 3:
+            sim.probe("fired_with_empty_phase")
+            if filled == ["before"]:
+                sim.probe("fired_with_before_triggers_only")
         with sim.guard("fire-raised", "fireSystemEvent"):
             reactor.fireSystemEvent(ev)
         if m.pending:
@@ -223,13 +312,16 @@ def run(sim):
             completion(ev)
 
     def behaviours(phase):
+        if not deferreds:
+            return [("plain", 5), ("raise", 2), ("remover", 2), ("adder", 2)]
         if phase == "before":
             return [("plain", 4), ("raise", 2), ("dnew", 4), ("dok", 1), ("dfail", 1), ("remover", 2), ("adder", 2)]
         return [("plain", 5), ("raise", 2), ("dnew", 1), ("remover", 2), ("adder", 2)]
 
     def op_register():
-        phase = sim.draw_choice(PHASES, "phase")
-        register(phase, sim.draw_choice(events, "ev"), sim.draw_weighted(behaviours(phase), "beh"), "caller")
+        ev = sim.draw_choice(events, "ev")
+        phase = sim.draw_choice(masks[ev], "phase")
+        register(phase, ev, sim.draw_weighted(behaviours(phase), "beh"), "caller")
 
     def op_remove():
         cands = sorted(T)
@@ -265,8 +357,8 @@ def run(sim):
         else:
             op_register()
     # ---- phase B: fire, interleave
-    fires_left = {ev: sim.draw_choice([1, 1, 2], "nfires") for ev in events}
-    for _ in range(80):
+    fires_left = {ev: sim.draw_choice([1, 1, 2, 3, 4], "nfires") for ev in events}
+    for _ in range(100):
         sim.step(300)
         ops = []
         idle = [ev for ev in events if not model[ev].firing and fires_left[ev] > 0]
@@ -277,7 +369,7 @@ def run(sim):
         if unf:
             ops.append(("deferred", 6))
         if waiting or idle:
-            ops.append(("register", 1))
+            ops.append(("register", churn))
             ops.append(("remove", 2))
         if not idle and not waiting:
             break
@@ -317,4 +409,14 @@ MUTANTS = [
     "base.py fireEvent: DeferredList(fireOnOneCallback=True) (continues at the first fired Deferred): CAUGHT (waits-for-deferreds)",
     "base.py removeTrigger_BEFORE: removal of during/after triggers ignored while waiting: CAUGHT (removed-never-runs)",
     "base.py fireEvent: DeferredList(fireOnOneErrback=True) + addCallback (a failing before-Deferred stops the event): CAUGHT (all-ran)",
+    "base.py fireEvent: _continueFiring skipped when no before-trigger returned a Deferred and during/after are empty (event stays in state "
+    "BEFORE with a stale finishedBefore; an identical hook registered again and removed before the next firing is not removed): CAUGHT "
+    "(removed-never-runs:before, runs-once:before, registration-order:before) - needs before-only events, several firings, equal handles",
+    "base.py _continueFiring: 'self.state = \"BASE\"; self.finishedBefore = []' deleted (state of the previous firing kept): CAUGHT (removed-never-runs:before)",
+    "base.py _continueFiring: 'if not self.during: return' (after-triggers of an event without during-triggers never run): CAUGHT (all-ran)",
+    "base.py addTrigger: a hook equal to an entry of the last finishedBefore is silently not registered: CAUGHT (remove-raised, registration-order)",
+    "FINDING on the unchanged tree (precondition avoided unless VERIF_C12_REREG_RAN_BEFORE_P>0): while an event is being fired (before-loop running "
+    "or waiting for before-Deferreds) a before-hook identical to one that already ran in this firing is registered again and removed through its "
+    "handle: removeTrigger_BEFORE finds the value in finishedBefore, only warns, the trigger stays registered and runs (same or next firing): "
+    "C12:removed-never-runs:before:equal-hook-ran-in-this-firing",
 ]
